@@ -64,6 +64,18 @@ func (f *frame) doCallVals(c *ssa.CallCommon, args []Val, st *State, pos token.P
 		fv := f.val(c.Value)
 		f.safety("nilcall", st, fmt.Sprintf("(not (= %s 0))", fv.T), pos, "call of nil function value")
 	}
+	// what the keyword abstraction knows about a []string argument, element by element
+	for _, a := range args {
+		if a.Ty != nil && isStringSlice(a.Ty) {
+			if fact, ok := f.ssetElementsFact(a, st.heap); ok {
+				k := "ssetfact:" + a.T + ":" + st.reach
+				if !g.assumed[k] {
+					g.assumed[k] = true
+					g.assumeUnder(st.reach, fact)
+				}
+			}
+		}
+	}
 	f.beforeCall(key, args, st, pos)
 	if key == "strings.ToUpper" && len(args) == 1 {
 		// constant folding: the upper-cased form of a string constant is a constant
